@@ -42,6 +42,12 @@ theorem C12_detailed_error_prefix :
     Gen.detailedErrorStartsWithErr.all id = true ∧ Gen.detailedErrorStartsWithErr ≠ [] := by
   decide
 
+/-- the trace capture keeps the debug (write) lock until it has read the captured output, and every Bind
+    holds the read lock around doBind: no other Bind's debug lines can get into a capture (regenerated facts) -/
+theorem C12_capture_under_exclusive_lock :
+    Gen.captureHoldsLockToTheEnd = true ∧ Gen.bindHoldsReadLock = true := by
+  decide
+
 /-- string-level: a concatenation starts with its first part -/
 theorem C12_concat_prefix (e rest : List Char) : (e ++ rest).take e.length = e := by simp
 
